@@ -66,7 +66,17 @@ def gen(seed, tier):
         queries.append({'kind': 'list', 'arg': '', 'argb': []})
         svcs = [(f['package'] + '.' if f['package'] else '') + s['name'] for f in files for s in f['services']]
         chosen = rnd.sample(svcs, rnd.randint(1, len(svcs))) if svcs and rnd.random() < 0.3 else []
-        out.append({'class': 'descriptor_set', 'files': files, 'dup': rnd.random() < 0.3, 'encoded': rnd.random() < 0.5, 'include_reflection': rnd.random() < 0.6,
+        nf = len(files)
+        mode = rnd.choice(['single', 'single', 'whole_dup', 'partial_dup', 'split'])
+        if mode == 'single' or nf == 0:
+            sets = [list(range(nf))]
+        elif mode == 'whole_dup':
+            sets = [list(range(nf)), list(range(nf))]
+        elif mode == 'partial_dup':      # a later set repeats an already registered file and then brings a new one
+            sets = [[0], list(range(nf))] if nf > 1 else [[0], [0]]
+        else:
+            sets = [[i] for i in range(nf)]
+        out.append({'class': 'descriptor_set', 'files': files, 'sets': sets, 'dup': mode in ('whole_dup', 'partial_dup'), 'encoded': rnd.random() < 0.5, 'include_reflection': rnd.random() < 0.6,
                     'chosen': chosen, 'chosen_b': [list(c.encode()) for c in chosen], 'queries': queries})
     return out
 
